@@ -47,6 +47,7 @@ namespace bxdecay0 {
                     double c3_,
                     double c4_)
   {
+    BXDECAY0_VERIF_SCOPE("beta2", Qbeta_, Zdtr_, tcnuc_, thnuc_, kf_, c1_, c2_, c3_, c4_);
     parbeta2 pars2;
     pars2.Zdtr  = Zdtr_;
     pars2.Qbeta = Qbeta_;
@@ -80,6 +81,7 @@ namespace bxdecay0 {
       E  = 50.e-6 + (Qbeta - 50.e-6) * prng_();
       fe = decay0_funbeta2(E, params_);
       f  = fm * prng_();
+      BXDECAY0_VERIF_NOTE("beta_trial", E, f, fe, fm);
     } while (f > fe);
     bxdecay0::particle_code np;
     if (Zdtr >= 0.) {
